@@ -792,6 +792,10 @@ func ruleP1(rule string) RuleFn {
 				if name == "reflect.TypeOf" {
 					return
 				}
+				if name == "dig.describeValue" {
+					// the formatter of REJECTED values takes anything by design; what it may do with it is T-no-format's business
+					return
+				}
 				if callee != nil && callee.Name() == fn.Name() && an.IsDigNamed(callee.Signature.Recv().Type(), "Scope") {
 					c.OK(rule, an.ShortName(fn)+" delegates to "+an.ShortName(callee), "delegation", in)
 					return
